@@ -199,12 +199,20 @@ fn content(t: &mut Tape, obs: &mut Obs) -> R {
         obs.nontrivial(h ^ (state as u64) << 56 ^ (to_server as u64) << 55);
     }
     obs.sample_class(&format!("{:?}", kind).split('(').next().unwrap_or("").to_string(), || json!({"state": STATE_NAMES[state], "to_server": to_server, "message": trunc(&format!("{:?}", m))}));
-    // the same call with the minimal message of that kind must give the same answer (metamorphic form)
+    // the same call with the minimal message of that kind must give the same answer (metamorphic form), in every state and
+    // direction: 50 cells per generated message, so that a content-dependent row of any single cell is met by every message of its kind
     let m0 = minimal_msg(kind);
     let (a, b) = (mk::msg(&m), mk::msg(&m0));
-    let ra = res_to_model(guard("tls_state_transition", || tls_state_transition(STATES[state], &a, to_server))?)?;
-    let rb = res_to_model(guard("tls_state_transition", || tls_state_transition(STATES[state], &b, to_server))?)?;
-    ensure!(ra == rb, format!("C08:content-dependence:state={}:kind={:?}", STATE_NAMES[state], kind), "outcome depends on message content: {} for {} but {} for a minimal message of the same kind (state {}, to_server={})", show(ra), trunc(&format!("{:?}", m)), show(rb), STATE_NAMES[state], to_server);
+    for st in 0..25 {
+        for dir in [true, false] {
+            obs.evals_add(1);
+            let ra = res_to_model(guard("tls_state_transition", || tls_state_transition(STATES[st], &a, dir))?)?;
+            let rb = res_to_model(guard("tls_state_transition", || tls_state_transition(STATES[st], &b, dir))?)?;
+            ensure!(ra == rb, format!("C08:content-dependence:state={}:kind={:?}", STATE_NAMES[st], kind), "outcome depends on message content: {} for {} but {} for a minimal message of the same kind (state {}, to_server={})", show(ra), trunc(&format!("{:?}", m)), show(rb), STATE_NAMES[st], dir);
+            let want = states::expected(st, kind, dir);
+            ensure!(ra == want, format!("C08:content:state={}:kind={:?}:to_server={}", STATE_NAMES[st], kind, dir), "tls_state_transition({}, {}, to_server={}) = {}, the documented flows give {}", STATE_NAMES[st], trunc(&format!("{:?}", m)), dir, show(ra), show(want));
+        }
+    }
     check_cell(state, &m, to_server, "content")
 }
 
